@@ -100,7 +100,8 @@ func (xp xpathImpl) resolvePath(seg *xpath.Path, s *Selection) (*Selection, erro
 		}
 		return s, nil
 	}
-	panic("type not supported " + m.Ident())
+	// an action, a notification, anydata
+	return nil, fmt.Errorf("'%s' is not a container, list or leaf and cannot be part of a path in xpath", seg.Ident)
 }
 
 func (xp xpathImpl) resolveExpression(name string, e xpath.Expression, sel *Selection) (bool, error) {
